@@ -1,0 +1,66 @@
+//go:build verif
+
+// Contracts for the deductive verifier in /verif (govc). This file contains
+// comments only and is compiled only under the "verif" build tag.
+
+package maps
+
+/*@
+// ---------------------------------------------------------------- C14 (map helpers)
+// has(m,k): key presence; m[k]: value (zero when absent); len(m): cardinality;
+// inside a range-over-map loop, visited[k] is the ghost set of keys already
+// produced, niter their number, itermod whether the ranged map was written.
+
+func ContainsValue
+  property C14
+  ensures[def] result == (exists k K :: has(m, k) && m[k] == value)
+  loop 0 invariant forall k K :: {visited[k]} visited[k] ==> has(m, k) && m[k] != value
+
+func KeyOf
+  property C14
+  ensures[found]  result1 ==> has(m, result0) && m[result0] == value
+  ensures[absent] !result1 ==> result0 == zero(K) && (forall k K :: {has(m, k)} has(m, k) ==> m[k] != value)
+  loop 0 invariant forall k K :: {visited[k]} visited[k] ==> has(m, k) && m[k] != value
+
+func Clone
+  property C14
+  ensures[fresh] result != nil && fresh(result)
+  ensures[dom]   forall k K :: {has(result, k)} has(result, k) == has(m, k)
+  ensures[val]   forall k K :: {has(m, k)} has(m, k) ==> result[k] == m[k]
+  ensures[len]   len(result) == len(m)
+  loop 0 invariant newMap != nil && fresh(newMap) && !itermod && len(newMap) == niter
+  loop 0 invariant forall k K :: {visited[k]} visited[k] == has(newMap, k)
+  loop 0 invariant forall k K :: {visited[k]} visited[k] ==> has(m, k) && newMap[k] == m[k]
+
+func Clear
+  property C14
+  ensures[empty] len(m) == 0 && (forall k K :: {has(m, k)} !has(m, k))
+  assigns map(m)
+  loop 0 invariant forall k K :: {visited[k]} visited[k] ==> !has(m, k)
+
+func HasKey
+  property C14
+  ensures[def] result == has(m, key)
+
+func Keys
+  property C14
+  ensures[len]    len(result) == len(m)
+  ensures[member] forall j :: 0 <= j && j < len(result) ==> has(m, result[j])
+  ensures[all]    forall k K :: {has(m, k)} has(m, k) ==> (exists j :: 0 <= j && j < len(result) && result[j] == k)
+  ensures[nodup]  forall i, j :: 0 <= i && i < j && j < len(result) ==> result[i] != result[j]
+  ensures[fresh]  fresh(result)
+  loop 0 invariant fresh(keys) && !itermod && len(keys) == niter
+  loop 0 invariant forall j :: 0 <= j && j < len(keys) ==> visited[keys[j]]
+  loop 0 invariant forall k K :: {visited[k]} visited[k] ==> has(m, k) && (exists j :: 0 <= j && j < len(keys) && keys[j] == k)
+  loop 0 invariant forall i, j :: 0 <= i && i < j && j < len(keys) ==> keys[i] != keys[j]
+
+func Values
+  property C14
+  ensures[len]    len(result) == len(m)
+  ensures[member] forall j :: 0 <= j && j < len(result) ==> (exists k K :: has(m, k) && m[k] == result[j])
+  ensures[all]    forall k K :: {has(m, k)} has(m, k) ==> (exists j :: 0 <= j && j < len(result) && result[j] == m[k])
+  ensures[fresh]  fresh(result)
+  loop 0 invariant fresh(values) && !itermod && len(values) == niter
+  loop 0 invariant forall j :: 0 <= j && j < len(values) ==> (exists k K :: visited[k] && has(m, k) && m[k] == values[j])
+  loop 0 invariant forall k K :: {visited[k]} visited[k] ==> has(m, k) && (exists j :: 0 <= j && j < len(values) && values[j] == m[k])
+@*/
